@@ -92,3 +92,67 @@ func harnessC04Transit() {
 	verif_assert(same, "C04/transit-altered-payload")
 	verif_assert(verif_aead_seals() == seals, "C04/transit-used-a-session-key")
 }
+
+// UDP ingress from the first datagram on: the real path set-up
+// (getOrCreateDestAssociation, createDestAssociation, handleUDPOpenAck) with the
+// harness as mesh and exit. The exit either answers honestly or never answers
+// (the set-up times out); in both histories no frame handed to the mesh carries
+// application bytes in clear.
+func harnessC04UDPSetup() {
+	verif_set_now(1 << 40)
+	a := c16Agent()
+	a.routeMgr = routing.NewManager(a.id)
+	exitID, hop := c16Peer(2), c16Peer(0)
+	_, nw, _ := net.ParseCIDR("10.0.0.0/8")
+	a.routeMgr.Table().AddRoute(&routing.Route{Network: nw, NextHop: hop, OriginAgent: exitID, Metric: 2, Path: []identity.AgentID{hop, exitID}, Sequence: 1})
+	ing := &udpIngressAssociation{BaseStreamID: 3, destAssocs: map[string]*udpDestAssociation{}}
+	a.udpIngressByBase = map[uint64]*udpIngressAssociation{3: ing}
+	a.udpIngressByLocalStream = map[uint64]*udpDestLookup{}
+	answers := verif_nondet_bool()
+	p := verif_nondet_bytes(2)
+	c16Log = nil
+	answered := 0
+	exit := func() {
+		// the exit: answer every UDP_OPEN not answered yet
+		for _, s := range c16Log[answered:] {
+			answered++
+			if s.f.Type != protocol.FrameUDPOpen {
+				continue
+			}
+			open, err := protocol.DecodeUDPOpen(s.f.Payload)
+			verif_assert(err == nil, "C04/udp-open-frame")
+			rpriv, rpub, _ := crypto.GenerateEphemeralKeypair()
+			_, err = crypto.ComputeECDH(rpriv, open.EphemeralPubKey)
+			verif_assert(err == nil, "C04/udp-open-carries-a-degenerate-key")
+			ack := &protocol.UDPOpenAck{RequestID: open.RequestID, BoundAddrType: protocol.AddrTypeIPv4, BoundAddr: []byte{1, 2, 3, 4}, BoundPort: 9, EphemeralPubKey: rpub}
+			a.handleUDPOpenAck(hop, &protocol.Frame{Type: protocol.FrameUDPOpenAck, StreamID: s.f.StreamID, Payload: ack.Encode()})
+		}
+	}
+	for round := 0; round < 2; round++ {
+		go a.RelayUDPDatagram(3, nil, 53, protocol.AddrTypeIPv4, []byte{10, 1, 2, 3}, p)
+		verif_drain() // blocked waiting for the exit, or done
+		if answers {
+			exit()
+			verif_drain()
+		}
+		// whatever is still waiting runs into the path set-up timeout
+		for i := 0; i < 4 && verif_timers() > 0; i++ {
+			verif_fire_timer(0)
+			verif_drain()
+		}
+	}
+	verif_reach("C04/udp-setup")
+	datagrams := 0
+	for _, s := range c16Log {
+		verif_assert(verif_taint_free(s.f.Payload, p), "C04/udp-frame-carries-application-bytes-in-clear")
+		if s.f.Type == protocol.FrameUDPDatagram {
+			datagrams++
+			dg, err := protocol.DecodeUDPDatagram(s.f.Payload)
+			verif_assert(err == nil && len(dg.Data) == len(p)+crypto.EncryptionOverhead, "C04/udp-payload-not-sealed")
+		}
+	}
+	if answers {
+		verif_reach("C04/udp-setup-answered")
+		verif_assert(datagrams == 2, "C04/udp-datagrams-not-relayed-after-honest-setup")
+	}
+}
